@@ -93,7 +93,7 @@ def write_program(d, name, src):
 
 def choose_scenarios(seed, tier):
     """quick: every access kind on the two plainest mechanisms, every mechanism with the plain field store under both
-    entries (scenario called from main / started with `go`), plus 3 seed-rotated (access, target, entry) combinations per
+    entries (scenario called from main / started with `go`), plus one seed-rotated (access, target, entry) combination per
     mechanism; thorough: the full product mechanism x access x target x entry, in chunks."""
     mechs = sorted(c14gen.MECHS)
     accs = sorted(c14gen.ACCS)
@@ -117,7 +117,7 @@ def choose_scenarios(seed, tier):
         add(m, "fstore", "self", "go")
     off = rnd(len(accs))
     for k, m in enumerate(mechs):
-        for j in range(3):
+        for j in range(1):
             a = accs[(off + k * 5 + j * 7) % len(accs)]
             add(m, a, c14gen.TARGETS[(k + j + off) % 3], ("call", "go")[(k + j + off // 3) % 2])
     return [sel]
@@ -141,6 +141,9 @@ def violation_key(acc, desc, role):
         return "race-local:kind=" + "+".join(kinds)
     if not desc:
         return "race-local:?:kind=" + "+".join(kinds)
+    if role in ("GG", "GACC"):
+        # the raced memory is a package-level int: independent of the sharing mechanism
+        return "race-local:global-var:%s:%s" % (desc[3] if len(desc) > 3 else "call", role)
     return "race-local:%s:%s:mech=%s:kind=%s" % (desc[3] if len(desc) > 3 else "call", role, desc[0], "+".join(kinds))
 
 
@@ -151,6 +154,10 @@ def run(chk):
         vlib.build_harness(["gentables"])
         vlib.gen_tables(["locality"])
         failed = chk.prove("theories/Properties/C14.v")
+        okf, _ = vlib.build_coq(["theories/Properties/C14Findings.vo"])
+        if not okf["theories/Properties/C14Findings.vo"]:
+            chk.notes.append("stale_known_finding: Properties/C14Findings.v (refutation lemmas over the regenerated tables: builtin calls / "
+                             "Convert always Local, checkEscape skips calls, Defer unhandled) no longer compiles - a listed defect was repaired")
     vlib.build_harness(["c14dump"])
     work = os.path.join(vlib.BUILD, "c14")
     shutil.rmtree(work, ignore_errors=True)
@@ -159,8 +166,45 @@ def run(chk):
              "race_sides_local": 0, "race_sides_unclassified": 0, "instructions_dumped": 0, "functions_with_context": 0,
              "contexts": 0, "corpus_instructions": 0, "corpus_local_access": 0, "corpus_nonlocal_access": 0}
     distinct = set()
+    tie_alarms = []
     found_concrete = False
     exe = os.path.join(vlib.BIN, "c14dump")
+
+    have_model = os.path.exists(os.path.join(vlib.COQ, "extracted/c14/build.sh"))
+    pool = concurrent.futures.ThreadPoolExecutor(3)
+
+    def tie_job():
+        model = vlib.build_model("c14")
+        res = []
+        nprog = 40 if tier == "quick" else 400
+        for ti in range(1 if tier == "quick" else 4):
+            name = "c14t%d" % ti
+            d = os.path.join(work, name)
+            src, mtext, linemap = c14gen.tie_program(chk.seed * 10 + ti, nprog // (1 if tier == "quick" else 4))
+            write_program(d, name, src)
+            open(os.path.join(d, "model.in"), "w").write(mtext)
+            rc, mout, merr = vlib.sh2([model], inp=mtext, timeout=900)
+            if rc != 0:
+                raise vlib.BuildError("c14model failed", merr)
+            open(os.path.join(d, "model.out"), "w").write(mout)
+            dumpf = os.path.join(d, "dump.txt")
+            rc2, out2 = vlib.sh([exe, "-o", dumpf, d], timeout=1500)
+            if rc2 != 0:
+                raise vlib.BuildError("c14dump failed on tie program", out2 + open(dumpf).read()[-2000:])
+            res.append((d, src, linemap, mout, parse_dump(dumpf)))
+        return res
+
+    def corpus_job():
+        names = CORPUS if tier != "quick" else CORPUS[:1] + CORPUS[4:]
+        corpus = [os.path.join(vlib.REPO, p) for p in names if os.path.isdir(os.path.join(vlib.REPO, p))]
+        cd = os.path.join(work, "corpus.txt")
+        rc, out = vlib.sh([exe, "-o", cd] + corpus, timeout=1500)
+        if rc not in (0, 2, 3):
+            raise vlib.BuildError("c14dump failed on corpus", out)
+        return parse_dump(cd)
+
+    tie_future = pool.submit(tie_job) if have_model else None
+    corpus_future = pool.submit(corpus_job)
 
     for ci, scens in enumerate(choose_scenarios(chk.seed, tier)):
         name = "c14g%d" % ci
@@ -205,7 +249,7 @@ def run(chk):
                 stats["race_sides"] += 1
                 sc = line2scen.get(line)
                 desc = info[sc[0]]["desc"] if sc else None
-                if sc and sc[1] == "ACC":
+                if sc and sc[1] in ("ACC", "GACC"):
                     acc_hit.add(sc[0])
                 acc, all_local, ins = classify_line(dump, "main.go", line)
                 if not ins:
@@ -224,10 +268,10 @@ def run(chk):
                     key = violation_key(acc, desc, sc[1] if sc else '-')
                     rd = chk.replay_dir(key)
                     write_replay(rd, d, line, desc, rep, ins, "instruction(s) classified Local in every derived context take part in a data race")
-                    found_concrete = True
-                    chk.violation(key, "data race on `%s` (scenario %s): %s Local in all %s context(s)" %
-                                  (src.split("\n")[line - 1].strip(), desc, sorted(set(k for _, k, _ in acc)),
-                                   [len(v) for _, _, v in acc][:1]), rd)
+                    if chk.violation(key, "data race on `%s` (scenario %s): %s Local in all %s context(s)" %
+                                     (src.split("\n")[line - 1].strip(), desc, sorted(set(k for _, k, _ in acc)),
+                                      [len(v) for _, _, v in acc][:1]), rd):
+                        found_concrete = True
                 else:
                     stats["race_sides_nonlocal"] += 1
                     if desc:
@@ -236,13 +280,61 @@ def run(chk):
         for i in sorted(acc_hit)[:3]:
             chk.sample({"scenario": info[i]["desc"], "race_at_acc_line": True})
 
+
+    # ---- tie model <-> impl: random programs of the calculus, extracted model verdicts vs the impl's locality dump
+    if have_model:
+        tstats = {"tie_programs": 0, "tie_compared": 0, "tie_agree_local": 0, "tie_agree_nonlocal": 0, "tie_impl_more_conservative": 0,
+                  "tie_alarm": 0, "tie_no_context": 0, "tie_model_outoffuel": 0}
+        for d, src, linemap, mout, tdump in tie_future.result():
+            mv = {}
+            cur = None
+            for l in mout.splitlines():
+                p = l.split()
+                if p and p[0] == "PROG":
+                    cur = int(p[1][1:])
+                    tstats["tie_programs"] += 1
+                elif p and p[0] == "V":
+                    mv[(cur, int(p[1]), int(p[2]))] = p[3]
+                elif p and p[0] == "OUTOFFUEL":
+                    tstats["tie_model_outoffuel"] += 1
+            srcl = src.split("\n")
+            for line, (k, fn, pc, kind) in sorted(linemap.items()):
+                if kind not in ("load", "store", "gload", "gstore") or (k, fn, pc) not in mv:
+                    continue
+                acc, all_local, ins = classify_line(tdump, "main.go", line)
+                if not ins or not acc:
+                    tstats["tie_no_context"] += 1
+                    continue
+                tstats["tie_compared"] += 1
+                m = mv[(k, fn, pc)]
+                if all_local and m == "L":
+                    tstats["tie_agree_local"] += 1
+                elif not all_local and m == "N":
+                    tstats["tie_agree_nonlocal"] += 1
+                elif not all_local:
+                    tstats["tie_impl_more_conservative"] += 1
+                else:
+                    tstats["tie_alarm"] += 1
+                    tie_alarms.append((d, line, srcl[line - 1].strip(), kind, (k, fn, pc), acc))
+        stats.update(tstats)
+        if tie_alarms and not any(1 for v in chk.viol):
+            # the model (proved sound) says the object may be shared: look for the concrete race first (ground truth above ran on
+            # the generated scenarios); none found there for this shape -> report the broken tie with the program as replay
+            d, line, text, kind, key3, acc = tie_alarms[0]
+            rd = chk.replay_dir("tie")
+            for f in ("main.go", "go.mod", "config.yaml", "escape-config.json", "model.in", "model.out", "dump.txt"):
+                shutil.copy(os.path.join(d, f), rd)
+            with open(os.path.join(rd, "replay.txt"), "w") as f:
+                f.write("tie model<->impl broken: %d instruction(s) are Local for the implementation in every derived context but NonLocal for the "
+                        "verified model (Model/Esc.v, local_sound_partial).\nfirst: main.go:%d `%s` (%s, calculus program/function/pc %s): impl %s\n"
+                        "all: %s\n\nre-run:\n  %s/c14model < %s/model.in ; %s/c14dump %s | grep 'main.go:%d:'\n" %
+                        (len(tie_alarms), line, text, kind, key3, acc, [(a[1], a[2]) for a in tie_alarms[:20]], vlib.BIN, rd, vlib.BIN, rd, line))
+            chk.violation("tie-broken:" + kind, "impl classifies `%s` Local where the proved-sound model says NonLocal (%d such instructions)" %
+                          (text, len(tie_alarms)), rd, no_input=True)
+
     # corpus: the repository's own escape test programs -- dump every context, record the verdict distribution
-    corpus = [os.path.join(vlib.REPO, p) for p in CORPUS if os.path.isdir(os.path.join(vlib.REPO, p))]
-    cd = os.path.join(work, "corpus.txt")
-    rc, out = vlib.sh([exe, "-o", cd] + corpus, timeout=1500)
-    if rc not in (0, 2, 3):
-        raise vlib.BuildError("c14dump failed on corpus", out)
-    cdump = parse_dump(cd)
+    cdump = corpus_future.result()
+    pool.shutdown()
     stats["corpus_instructions"] = cdump["instr"]
     for (f, line), ins in cdump["lines"].items():
         for fn, k, v, _ in ins:
